@@ -58,6 +58,10 @@ class NS(object):
     def field(self, name, fld):
         """term of a field of a record-valued variable (callables become Fn terms)"""
         rec = self._ex.deref(self._frame[name], self._st)
+        if isinstance(rec, Obj):      # at call sites `self` is the freshly created object: its fields are selector terms
+            fty = self._ex.reg.field_type(rec.cls, fld)
+            if fty is None: raise Unsupported('field %s.%s not declared' % (rec.cls, fld))
+            return self._ex.term_of(self._ex.read_field(rec, fld, fty, self._st), self._st)
         v = rec.fields[fld]
         d = self._ex.deref(v, self._st)
         if isinstance(d, (Closure, BoundMethod, FuncV, Rec)): return self._ex.as_fn(v, self._st)
@@ -94,6 +98,7 @@ class Exec(object):
         o = Obligation(name, list(state.pc) + list(self.axioms) + list(extra_h), goal, kind=kind.split('/')[0],
                        function=self.fname, where='%s:%d-%d' % (self.fi.file, self.fi.lines[0], self.fi.lines[1]),
                        carries_property=carries, unfold_depth=self.contract.unfold_depth)
+        o.abstract_nonlinear = getattr(self.contract, 'abstract_nonlinear', False)
         self.obls.append(o)
         return o
 
@@ -103,6 +108,7 @@ class Exec(object):
     def term_of(self, v, st):
         v = self.deref(v, st)
         if isinstance(v, Opt): return v      # contracts use .isnone/.val
+        if isinstance(v, (SymSet, SymDict)): return v
         if isinstance(v, Rec): return v
         if isinstance(v, NoneV): return v
         return unwrap(v)
@@ -132,6 +138,18 @@ class Exec(object):
             if v.py == 'float': return v.z
         raise Unsupported('as_real %r' % (v,))
 
+    def canonical_closure_name(self, v, st):
+        """a nested function that captures nothing denotes the same callable wherever it is created: it gets a name
+        derived from its source position so that specs can refer to it (closure_fn in contracts)"""
+        if not isinstance(v, Closure) or v.self_val is not None: return None
+        node = v.node
+        params = {a.arg for a in node.args.args}
+        local = {n.id for n in ast.walk(node) if isinstance(n, ast.Name) and isinstance(n.ctx, ast.Store)}
+        for n in ast.walk(node):
+            if isinstance(n, ast.Name) and isinstance(n.ctx, ast.Load) and n.id not in params and n.id not in local:
+                if any(n.id in fr for fr in st.frames): return None        # captures a variable
+        return closure_name(v.module.relpath, v.qual or node.name)
+
     def as_fn(self, v, st):
         """value usable as a callable of one real argument -> z3 Fn term"""
         ref = v
@@ -148,7 +166,10 @@ class Exec(object):
         else:
             rec = None; key = None
         if isinstance(v, (Closure, BoundMethod, FuncV)):
-            f = fresh(Fn, 'clos')
+            canon = self.canonical_closure_name(v, st)
+            if canon is not None and canon in self._fn_cache: return self._fn_cache[canon]
+            f = z3.Const(canon, Fn) if canon else fresh(Fn, 'clos')
+            if canon: self._fn_cache[canon] = f
             r = fresh(RealS, 'r')
             st2 = st.copy(); st2.pc = []
             saved_r, saved_t = self._raises, self.track_raises
@@ -163,6 +184,11 @@ class Exec(object):
                 cond = z3.And(*s_o.pc) if s_o.pc else z3.BoolVal(True)
                 body = val if body is None else z3.If(cond, val, body)
             if body is None: raise Unsupported('callable with no normal path')
+            if rec is None and z3.is_app(body) and body.decl().name() == 'app' and z3.eq(body.arg(1), r) and not _mentions(body.arg(0), r):
+                # lambda r: g(r)
+                if not getattr(self, '_eta_added', False):
+                    self.axioms.extend(eta_axioms()); self._eta_added = True
+                return eta(body.arg(0))
             self.axioms.append(z3.ForAll([r], app(f, r) == body, patterns=[app(f, r)]))
             # the closure raises exactly when one of the applications inside it raises
             rs = _collect_apps(body)
@@ -181,6 +207,17 @@ class Exec(object):
             return f
         raise Unsupported('not a callable: %r' % (v,))
 
+
+def closure_name(relpath, name):
+    return 'clos:%s:%s' % (relpath.split('/')[-1], name)
+
+def _mentions(e, x):
+    stack = [e]
+    while stack:
+        y = stack.pop()
+        if z3.eq(y, x): return True
+        stack.extend(y.children())
+    return False
 
 def _collect_apps(e):
     out, seen, stack = [], set(), [e]
@@ -475,7 +512,7 @@ class ExprMixin(object):
             if isinstance(item, PyStr): return z3.BoolVal(item.s in c.d)
             iz = unwrap(item)
             return z3.Or(*[iz == z3.StringVal(k) for k in c.d if isinstance(k, str)]) if c.d else z3.BoolVal(False)
-        if isinstance(c, SymDict):
+        if isinstance(c, (SymDict, SymSet)):
             return z3.Select(c.has, self.key_term(item, st))
         if isinstance(c, (Tup, PyList)):
             return z3.Or(*[self.compare(ast.Eq(), item, x, st) for x in c.items]) if c.items else z3.BoolVal(False)
@@ -487,6 +524,7 @@ class ExprMixin(object):
 
     def key_term(self, k, st):
         k = self.deref(k, st)
+        if isinstance(k, TupTerm): return k.z
         if isinstance(k, Tup):
             zs = [unwrap(self.deref(i, st)) for i in k.items]
             return _tuple_term(zs)
@@ -547,7 +585,7 @@ class ExprMixin(object):
                 return self.call_function(fi, [recv], {}, st, self_cls=self.class_home(r.cls), node=node)
             if fi is not None: return [(BoundMethod(recv, name), st)]
             raise AttributeErrorSite(r.cls, name)
-        if isinstance(r, (DocObj, PyList, SeqV, PyDict, SymDict, PyStr, Text, FnV, Sc, Tup)):
+        if isinstance(r, (DocObj, PyList, SeqV, PyDict, SymDict, SymSet, PySet, PyStr, Text, FnV, Sc, Tup, TupTerm)):
             return [(BoundMethod(recv, name), st)]
         if isinstance(r, ClassV):
             fi = r.module.find_method(r.name, name)
@@ -654,6 +692,11 @@ class ExprMixin(object):
             s3 = st.copy(); s3.pc.append(z3.And(*[iz != z3.StringVal(k) for k in c.d]))
             out.extend(self.raise_exc('KeyError', s3))
             return out
+        if isinstance(c, TupTerm):
+            if isinstance(i, Sc) and z3.is_int_value(i.z):
+                n = i.z.as_long(); S = c.z.sort()
+                return [(wrap(c.tys[n], S.accessor(0, n)(c.z)), st)]
+            raise Unsupported('symbolic index into a tuple')
         if isinstance(c, SymDict):
             k = self.key_term(i, st)
             present = z3.Select(c.has, k)
@@ -849,9 +892,10 @@ class StmtMixin(object):
     def st_If(self, s, st):
         outs = []
         for c, s1 in self.evs(s.test, st):
-            t = z3.simplify(self.truth(c, s1))
-            if z3.is_true(t): outs.extend(self.block(s.body, s1)); continue
-            if z3.is_false(t): outs.extend(self.block(s.orelse, s1)); continue
+            t = self.truth(c, s1)
+            ts = z3.simplify(t)         # only to recognise constants: the path condition keeps the unsimplified term
+            if z3.is_true(ts): outs.extend(self.block(s.body, s1)); continue
+            if z3.is_false(ts): outs.extend(self.block(s.orelse, s1)); continue
             a = s1.copy(); a.pc.append(t)
             b = s1.copy(); b.pc.append(z3.Not(t))
             self.refine_optional(s.test, a, True); self.refine_optional(s.test, b, False)
@@ -861,6 +905,10 @@ class StmtMixin(object):
 
     def refine_optional(self, test, st, branch):
         """in the branch where an optional variable is known not to be None it is re-bound to its value"""
+        if isinstance(test, ast.BoolOp):
+            if (isinstance(test.op, ast.And) and branch) or (isinstance(test.op, ast.Or) and not branch):
+                for x in test.values: self.refine_optional(x, st, branch)
+            return
         neg = False
         while isinstance(test, ast.UnaryOp) and isinstance(test.op, ast.Not):
             test = test.operand; neg = not neg
@@ -1018,7 +1066,10 @@ class StmtMixin(object):
             if isinstance(src, PyDict): return self.unrolled(s, [PyStr(k) for k in src.d], st)
             if isinstance(src, SeqV):
                 lo, hi = z3.IntVal(0), z3.Length(src.z)
-                elem = lambda k, st_, src=src: wrap(src.elem, src.z[k])
+                def elem(k, st_, src=src):
+                    if getattr(src, 'member_of', None) is not None:
+                        st_.pc.append(z3.Select(src.member_of, src.z[k]))     # A4 instance: sorted(S)[k] is a member of S
+                    return wrap(src.elem, src.z[k])
             else:
                 raise Unsupported('iteration over %r' % (src,))
         return self.invariant_loop(s, lo, hi, elem, st)
@@ -1114,6 +1165,7 @@ class StmtMixin(object):
             return SeqV(fresh(z3.SeqSort(ty.sort()), nm), ty)
         if isinstance(v, SymDict):
             return SymDict(fresh(v.has.sort(), nm + '.has'), fresh(v.get.sort(), nm + '.get'), v.kty, v.vty)
+        if isinstance(v, SymSet): return SymSet(fresh(v.has.sort(), nm + '.has'), v.kty)
         if isinstance(v, (NoneV, PyStr, Closure, ClassV, FuncV, ModuleV, Builtin, PyDict, Tup, Rec, LocalClass, Opt)):
             return v     # immutable or not modelled as changing
         raise Unsupported('havoc of %r' % (v,))
@@ -1141,6 +1193,10 @@ class StmtMixin(object):
                 st.cells[v.id] = SeqV(z, ty)
         for nm in list(st.env):
             v = st.env[nm]
+            if isinstance(v, Ref) and isinstance(st.cells[v.id], PySet) and nm in self.loop_list_types:
+                kty = self.loop_list_types[nm].args[0]
+                st.cells[v.id] = SymSet(z3.K(self.key_sort(kty), z3.BoolVal(False)), kty)
+                continue
             if isinstance(v, Ref) and isinstance(st.cells[v.id], PyDict) and not st.cells[v.id].d and nm in self.loop_list_types:
                 ty = self.loop_list_types[nm]
                 kty, vty = ty.args
@@ -1156,10 +1212,14 @@ class StmtMixin(object):
         k = fresh(IntS, 'k%d' % ordinal)
         si.env[idx] = Sc(k, 'int')
         si.pc += [k >= lo, k < hi]
-        si.pc += inv(NS(self, si), self.old_ns)
-        self.bind(s.target, elem(k, si), si)
         outs = []
-        for o in self.block(s.body, si):
+        body_outs = []
+        for sc in self.split_bounded(ordinal, si):
+            sc.pc += inv(NS(self, sc), self.old_ns)
+            if not self.feasible(sc): continue
+            self.bind(s.target, elem(k, sc), sc)
+            body_outs.extend(self.block(s.body, sc))
+        for o in body_outs:
             if o.kind in ('normal', 'continue'):
                 sn = o.state; sn.env[idx] = Sc(k + 1, 'int')
                 for g in inv(NS(self, sn), self.old_ns):
@@ -1172,9 +1232,29 @@ class StmtMixin(object):
         kx = fresh(IntS, 'kx%d' % ordinal)
         sx.env[idx] = Sc(kx, 'int')
         sx.pc += [kx == z3.If(hi >= lo, hi, lo)]
-        sx.pc += inv(NS(self, sx), self.old_ns)
-        outs.append(Outcome('normal', sx))
+        for sc in self.split_bounded(ordinal, sx):
+            sc.pc += inv(NS(self, sc), self.old_ns)
+            if self.feasible(sc): outs.append(Outcome('normal', sc))
         return outs
+
+    def split_bounded(self, ordinal, st):
+        """case split on the (bounded) length of declared lists: in each case the list has a concrete length and fresh
+        symbolic elements, which keeps nested sequences out of the queries"""
+        spec = self.contract.bounded_lists.get(ordinal)
+        if not spec: return [st]
+        states = [st]
+        for nm, (length, bound) in spec.items():
+            nxt = []
+            for s0 in states:
+                for c in range(bound):
+                    s1 = s0.copy()
+                    ty = self.loop_list_types[nm]
+                    ref = s1.env[nm]
+                    s1.cells[ref.id] = PyList([wrap(ty, fresh(ty.sort(), '%s_%d' % (nm, j))) for j in range(c)])
+                    s1.pc.append(length(NS(self, s1)) == c)
+                    nxt.append(s1)
+            states = nxt
+        return states
 
     def st_While(self, s, st):
         raise Unsupported('while loop')
@@ -1309,12 +1389,26 @@ class CallMixin(object):
             if isinstance(a, SeqV):
                 return [((a if name == 'tuple' else st.new_cell(SeqV(a.z, a.elem))), st)]
             raise Unsupported('%s(%r)' % (name, a))
+        if name == 'set':
+            if args: raise Unsupported('set(iterable)')
+            return [(st.new_cell(PySet()), st)]
         if name == 'dict':
             if args: 
                 a = d[0]
                 if isinstance(a, PyDict): return [(st.new_cell(PyDict(a.d)), st)]
                 raise Unsupported('dict(%r)' % (a,))
             return [(st.new_cell(PyDict(dict(kw))), st)]
+        if name == 'sorted' and isinstance(d[0], SymSet):
+            # A4 (stdlib contract): sorted(set) is the strictly increasing sequence of exactly the set's members
+            a = d[0]
+            self.reg.assume('A4: sorted(set) returns the strictly increasing sequence of exactly the members of the set')
+            sv = SeqV(sorted_keys_fn(a.kty)(a.has), a.kty)
+            sv.member_of = a.has        # instances of "every element is a member" are added where elements are taken
+            return [(sv, st)]
+        if name == 'sorted' and isinstance(d[0], SeqV):
+            a = d[0]
+            self.reg.assume('A4: sorted(list) returns the ordered permutation of the list (uninterpreted function sorted_seq with that meaning)')
+            return [(SeqV(sorted_seq_fn(a.z.sort())(a.z), a.elem), st)]
         if name == 'sorted':
             a = d[0]
             if isinstance(a, (Tup, PyList)):
@@ -1377,7 +1471,13 @@ class CallMixin(object):
                 v = d[0]
                 if isinstance(r, PyList): st.cells[recv.id] = PyList(r.items + [args[0]])
                 else:
-                    st.cells[recv.id] = SeqV(z3.Concat(r.z, z3.Unit(self.elem_term(v, r.elem, st))), r.elem)
+                    x = self.elem_term(v, r.elem, st)
+                    l2 = z3.Concat(r.z, z3.Unit(x))
+                    st.cells[recv.id] = SeqV(l2, r.elem)
+                    # valid instances of the theory of sequences (help for nested sequences, where the solvers are weak)
+                    n = z3.Length(r.z)
+                    st.pc += [z3.Length(l2) == n + 1, l2[n] == x] + [z3.Implies(n > j, l2[j] == r.z[j]) for j in range(4)]
+                    st.pc += [z3.Implies(n == j, l2[j] == x) for j in range(4)]
                 return [(NONE, st)]
             if name == 'extend':
                 src = d[0]
@@ -1394,6 +1494,9 @@ class CallMixin(object):
                     st.cells[recv.id] = SeqV(z3.Concat(base, src.z) if r.items else src.z, src.elem); return [(NONE, st)]
             if name == 'sort' and isinstance(r, PyList):
                 st.cells[recv.id] = PyList(self.sort_network(r.items, st)); return [(NONE, st)]
+        if isinstance(r, SymSet) and name == 'add':
+            st.cells[recv.id] = SymSet(z3.Store(r.has, self.key_term(args[0], st), z3.BoolVal(True)), r.kty)
+            return [(NONE, st)]
         if isinstance(r, SymDict):
             if name == 'get':
                 k = self.key_term(args[0], st)
@@ -1446,7 +1549,15 @@ class CallMixin(object):
                 docs.append(self.text_of(it, st))
             return Text(cat(*docs))
         if isinstance(lst, SeqV) and lst.elem.kind == 'Text':
-            return Text(join_fn(sepd, lst.z))
+            j = join_fn(sepd, lst.z)
+            # definition of str.join for short lists (instances for lengths 0..4)
+            for n in range(0, 5):
+                parts = []
+                for i in range(n):
+                    if i: parts.append(sepd)
+                    parts.append(lst.z[i])
+                st.pc.append(z3.Implies(z3.Length(lst.z) == n, j == cat(*parts)))
+            return Text(j)
         raise Unsupported('join over %r' % (lst,))
 
     # ---------------------------------------------------------------- repository functions
@@ -1628,6 +1739,22 @@ class _LocalModule(object):
 _EXC_BUILTINS = set('ValueError KeyError TypeError IndexError NotImplementedError AttributeError ZeroDivisionError NameError'.split())
 
 join_fn = z3.Function('join', Doc, DocList, Doc)
+
+_sorted_seq_fns = {}
+def sorted_seq_fn(seqsort):
+    key = str(seqsort)
+    if key not in _sorted_seq_fns:
+        _sorted_seq_fns[key] = z3.Function('sorted_seq_' + key.replace(' ', '_').replace('(', '').replace(')', ''), seqsort, seqsort)
+    return _sorted_seq_fns[key]
+
+_sorted_fns = {}
+def sorted_keys_fn(kty):
+    """sorted_keys : (K -> Bool) -> Seq K   (characterised by the A4 axioms in contracts/stdlib.py)"""
+    ks = kty.sort()
+    key = str(ks)
+    if key not in _sorted_fns:
+        _sorted_fns[key] = z3.Function('sorted_keys_' + key.replace(' ', '_'), z3.ArraySort(ks, BoolS), z3.SeqSort(ks))
+    return _sorted_fns[key]
 
 
 # =====================================================================================
